@@ -36,6 +36,10 @@ var c16Programs = [...]string{
 	"1/0",
 	"write(\"x\ny\")",
 	"[1,\n2,\n3][1]",
+	// one physical line longer than any reader buffer
+	"write(#\"" + strings.Repeat("x", 5000) + "\")",
+	"write(#[" + strings.Repeat("1000000000001, ", 300) + "1])",
+	"{\ns = \"" + strings.Repeat("y", 4090) + "\"\nwrite(#s)\n}",
 }
 
 func newVM() *vm.Type {
@@ -49,11 +53,17 @@ func newVM() *vm.Type {
 }
 
 func loopOver(text string, file bool) string {
+	if file {
+		// the real file reader over the script text, with or without a final line terminator
+		if vrt.Bool("file-ends-with-newline") {
+			text += "\n"
+		}
+		vrt.CaptureStart()
+		node.VerifFileLoop(text, parser.Type{}, newVM(), false)
+		return vrt.Captured()
+	}
 	rd := &node.VerifLines{}
 	for _, ln := range strings.Split(text, "\n") {
-		if file {
-			ln += "\n"
-		}
 		rd.Lines = append(rd.Lines, ln)
 		rd.Errs = append(rd.Errs, nil)
 	}
